@@ -445,6 +445,26 @@ func c11Scenario(s c11Session) explore.Scenario {
 						if h == nil && snapshotTree(root, false) != snapBefore {
 							bad = append(bad, fmt.Sprintf("%s on stale handle %q changed the served tree", sym.kind, hd))
 						}
+						// the requests that carry no payload and ask for nothing name a dead handle just the same
+						var empty []byte
+						switch sym.kind {
+						case "write":
+							empty = mustPkt(&sshFxpWritePacket{ID: id + 500, Handle: hd, Offset: 0, Length: 0, Data: []byte{}})
+						case "read":
+							empty = mustPkt(&sshFxpReadPacket{ID: id + 500, Handle: hd, Offset: 0, Len: 0})
+						case "fsetstat":
+							empty = mustPkt(&sshFxpFsetstatPacket{ID: id + 500, Handle: hd, Flags: 0, Attrs: []byte{}})
+						}
+						if empty != nil {
+							f2, ok := exch(empty)
+							if !ok {
+								return
+							}
+							trace = append(trace, "empty "+sym.String()+"->"+f2.String())
+							if c2, st := f2.statusCode(); f2.id != id+500 || !st || c2 == sshFxOk {
+								bad = append(bad, fmt.Sprintf("%s of nothing on handle %q, which is closed or was never issued, answered %s", sym.kind, hd, f2))
+							}
+						}
 					}
 				}
 				// contexts of still-open handles must not be cancelled yet
